@@ -202,21 +202,21 @@ Proof. exact reader_sim_g2_nobrace. Qed.
     it); [units_ok] also holds for 100 enumerated ASTs that the coarser AST predicate cls_stale_recipe flags -
     class_C05 no longer does *)
 Theorem C05_units_cover_small :
-  forallb (fun a => negb (wf fo_none a && Nat.eqb (class_C05 true a) 0 && negb (nonsimple_mult a)) || units_ok fo_none a) small_c05 = true.
+  forallb (fun a => negb (wf fo_none a && Nat.eqb (class_C05 true a) 0 && negb (nonsimple_mult a) && negb (cls_stale_recipe a)) || units_ok fo_none a) small_c05 = true.
 Proof. exact C05_units_cover_small_list. Qed.
 Theorem C05_units_cover_small_not_vacuous :
   (2000 <=? length (filter (fun a => wf fo_none a && units_ok fo_none a && has_branch_mult a) small_c05))%nat = true.
 Proof. exact C05_units_cover_small_nonvacuous. Qed.
 (** the defect classes as the check numbers them ([ReaderCheck.class_C05]) are cut down to the complement of [units_ok]:
     an AST that satisfies it is in no class.  BOUNDED exactness: every enumerated well-formed AST that is in a class is
-    NOT read as its longhand with the identical numbering (24 ASTs in stale_recipe, 843 in nested_in_unit), so on the
+    NOT read as its longhand with the identical numbering (843 in nested_in_unit; the list has no ring in a unit), so on the
     list no class hides an input on which the reader is right *)
 Theorem C05_classes_exact_small :
   forallb (fun a => negb (wf fo_none a) || Nat.eqb (class_C05 true a) 0 || negb (Nat.eqb (model_C05 fo_none true a None) 0)) small_c05 = true.
 Proof. exact C05_classes_exact_small_list. Qed.
 Theorem C05_classes_exact_small_not_vacuous :
-  (length (filter (fun a => wf fo_none a && Nat.eqb (class_C05 true a) 10) small_c05),
-   length (filter (fun a => wf fo_none a && Nat.eqb (class_C05 true a) 5) small_c05)) = (24%nat, 843%nat).
+  (length (filter (fun a => wf fo_none a && Nat.eqb (class_C05 true a) 4) small_c05),
+   length (filter (fun a => wf fo_none a && Nat.eqb (class_C05 true a) 5) small_c05)) = (0%nat, 843%nat).
 Proof. exact C05_classes_exact_small_counts. Qed.
 (** non-vacuity: a multiplied branch inside a branch, behind a sibling branch, directly followed by ")", and a second
     one at top level behind a sibling branch *)
@@ -267,13 +267,13 @@ Proof.
   exists [nd "X"; Item (S "A") [] None None [Branch [nd "B"; Item (S "G") [] None None [Branch [nd "D"] None None]; nd "E"] three None]; nd "C"].
   vm_compute. repeat split; discriminate.
 Qed.
-(** {[#Q]([#A]([#X])[#D]([#B])|2[#E])}: nine nodes against eight *)
-Theorem C05_refuted_stale_recipe : exists a,
-  wf fo0 a = true /\ class_C05 true a = 10%nat /\ count_nodes (short_of fo0 true a) <> count_nodes (long_of fo0 true a).
-Proof.
-  exists [Item (S "Q") [] None None [Branch [Item (S "A") [] None None [Branch [nd "X"] None None];
-                                              Item (S "D") [] None None [Branch [nd "B"] two None]; nd "E"] None None]].
-  vm_compute. repeat split; discriminate.
-Qed.
+(** {[#Q]([#A]([#X])[#D]([#B])|2[#E])} and {[#X]([#A]([#B]([#Q]))([#C])|2)} (stale_recipe, repaired: the slice of the
+    recipe table starts at the entry of the closing anchor): read as the longhand, identity numbering *)
+Example C05_fixed_stale_recipe :
+  model_C05 fo0 true [Item (S "Q") [] None None [Branch [Item (S "A") [] None None [Branch [nd "X"] None None];
+                                                          Item (S "D") [] None None [Branch [nd "B"] two None]; nd "E"] None None]] None = 0%nat
+  /\ model_C05 fo0 true [Item (S "X") [] None None [Branch [Item (S "A") [] None None
+                            [Branch [Item (S "B") [] None None [Branch [nd "Q"] None None]] None None; Branch [nd "C"] two None]] None None]] None = 0%nat.
+Proof. vm_compute. split; reflexivity. Qed.
 
 Print Assumptions C05_refuted_ring_in_unit.
